@@ -41,8 +41,12 @@ void abort(void) { __CPROVER_assert(0, "C12 compiler: internal janet_assert (\"b
 #else
 #define VEC_ALLOC(cap) BCAP
 #endif
-#define N0MAX 4          /* words already emitted at entry (symbolic contents) */
+#ifndef N0MAX
+#define N0MAX 3          /* words already emitted at entry (symbolic contents): 0 or N0MAX */
+#endif
+#ifndef SUBMAX
 #define SUBMAX 3         /* words a sub-compilation appends */
+#endif
 #define NLOG 4
 #define ARGN 4
 
@@ -72,8 +76,17 @@ void *h_v_grow(void *v, int32_t increment, int32_t itemsize) {
   __CPROVER_assert(increment >= 1, "janet_v_grow.pre: positive increment");
   int32_t cnt = CNT(v);
   __CPROVER_assume(cnt + increment < BCAP);                       /* harness bound */
+#ifdef GROW_MOVES
+  int32_t cap = cnt + increment + 1;          /* minimal growth: the vector moves at EVERY push (and symex stays deterministic) */
+#else
   int32_t cap = nd_i32(); __CPROVER_assume(cap > cnt + increment && cap <= BCAP);
+#endif
   g_moves++;
+#ifndef GROW_MOVES
+  /* cheap form used by the spec_* units (there the vector is moved by every sub-compilation instead): an existing block
+   * is enlarged in place, as realloc may do; the units of reserve / emit_bytes / spec_variadic use the moving form */
+  if (v != NULL) { ((int32_t *) v)[-2] = cap; return v; }
+#endif
   if (itemsize == (int32_t) sizeof(uint32_t)) {
     uint32_t *old = (uint32_t *) v;
     uint32_t *p = vec_u32(cap, cnt);
@@ -140,12 +153,14 @@ void h_arity(int32_t argc, int32_t min, int32_t max) {           /* janet_arity 
 
 /* ---- builder with N0 symbolic words already emitted ---- */
 static uint32_t g_fidx, g_fval;                      /* frame ghost: one arbitrary old word */
-static void mk_builder(Builder *b) {
-  int32_t n0 = nd_i32(); __CPROVER_assume(n0 >= 0 && n0 <= N0MAX);
-  if (n0 == 0 && nd_int()) b->bytecode = NULL;
-  else { int32_t cap = nd_i32(); __CPROVER_assume(cap > n0 && cap <= BCAP); b->bytecode = vec_u32(cap, n0); }
+/* n0 and the initial capacity are CONSTANTS per call site (h_spec splits into cases): with a symbolic count every push of
+ * reserve() forks into grow / no grow and every index into the vector is symbolic (10x the solving time) */
+static void mk_builder(Builder *b, int32_t n0, int32_t cap) {
+  if (cap == 0) b->bytecode = NULL;
+  else b->bytecode = vec_u32(cap, n0);
   b->constants = NULL; b->grammar = NULL; b->default_grammar = NULL; b->tags = NULL;
-  b->depth = nd_int(); b->nexttag = nd_u32(); b->has_backref = nd_int() ? 1 : 0;
+  b->depth = nd_int(); __CPROVER_assume(b->depth >= 0 && b->depth <= JANET_RECURSION_GUARD);   /* builder invariant */
+  b->nexttag = nd_u32(); b->has_backref = nd_int() ? 1 : 0;
   G_B = b; g_n0 = (uint32_t) n0; g_nconst = nd_u32(); __CPROVER_assume(g_nconst <= 3);
   g_cc = g_tc = g_kc = g_nc = g_ic = 0; g_appended = 0; g_moves = 0;
   g_fidx = nd_u32(); __CPROVER_assume(n0 == 0 || g_fidx < (uint32_t) n0);
@@ -173,11 +188,11 @@ static void post_rule(Builder *b, uint32_t size) {
 #define SUBRULE(j, a) (g_cc > (j) && JEQ(g_c_arg[j], a))
 #define TAGOF(j, a) (g_tc > (j) && JEQ(g_t_arg[j], a))
 
-#ifdef SPEC_FN
-void h_spec(void) {
+#if defined(SPEC_FN) && !defined(SHAPE_range) && !defined(SHAPE_set)
+static void spec_case(int32_t n0c, int32_t capc) {
   Builder B; Janet argv[ARGN];
   int32_t argc = nd_i32(); __CPROVER_assume(argc >= 0 && argc <= ARGN);
-  mk_builder(&B);
+  mk_builder(&B, n0c, capc);
   int backref0 = B.has_backref; uint32_t nconst0 = g_nconst;
 #ifdef SHAPE_variadic
   __CPROVER_assume(argc <= 3);                                   /* bound */
@@ -338,5 +353,325 @@ void h_spec(void) {
 #error "no SHAPE"
 #endif
   (void) bc; (void) n0; (void) nconst0; (void) backref0;
+}
+/* initial vector: absent / empty with room / N0MAX arbitrary words and full (first push must grow) / N0MAX words with room */
+void h_spec(void) {
+  int c = nd_int();
+  if (c == 0) spec_case(0, 0);
+  else if (c == 1) spec_case(0, BCAP);
+  else if (c == 2) spec_case(N0MAX, N0MAX + 1);
+  else spec_case(N0MAX, BCAP);
+}
+#endif
+
+/* =====================================================================================================================
+ * LEAF UNITS: the emitters and readers whose contracts the spec_* units use
+ * ===================================================================================================================== */
+static uint32_t veclen(const uint32_t *v) { return (uint32_t) CNT(v); }
+
+#ifdef LEAF_reserve
+/* reserve(b, size): returns {b, n0, size}; exactly size ZERO words appended at n0 (no uninitialised word in the reserved
+ * block); earlier words preserved although the vector moves at every growth */
+static void reserve_case(int32_t n0c, int32_t capc) {
+  Builder B; mk_builder(&B, n0c, capc);
+  int32_t size = nd_i32(); __CPROVER_assume(size >= 0 && size <= 9);
+  Reserve r = reserve(&B, size);
+  g_len = veclen(B.bytecode);
+  __CPROVER_assert(r.builder == &B && r.index == g_n0 && r.size == size, "C12 reserve: the reservation names the builder, the old count as rule index and the size");
+  __CPROVER_assert(g_len == g_n0 + (uint32_t) size, "C12 reserve: exactly size words appended");
+  uint32_t k = nd_u32();
+  if (k < (uint32_t) size) __CPROVER_assert(B.bytecode[g_n0 + k] == 0, "C12 reserve: every reserved word is initialised (0)");
+  __CPROVER_assert(g_n0 == 0 || B.bytecode[g_fidx] == g_fval, "C12 reserve: rules emitted earlier are preserved across the growth of the vector");
+  __CPROVER_assert(size == 0 || CNT(B.bytecode) < ((int32_t *) B.bytecode)[-2], "C12 reserve: count stays below the capacity of the block");
+  if (size == 9) REACH("reserve returns (9 words)");
+  if (size == 0) REACH("reserve returns (0 words)");
+}
+void h_reserve(void) {
+  int c = nd_int();
+  if (c == 0) reserve_case(0, 0); else if (c == 1) reserve_case(N0MAX, N0MAX + 1); else reserve_case(N0MAX, N0MAX + 4);
+}
+#endif
+
+#ifdef LEAF_emit_rule
+/* emit_rule(r, op, n, body) with a reservation made earlier (index + size <= count): writes op and the n body words into
+ * exactly the reserved words - nothing else changes, the vector does not move, count unchanged. emit_1/2/3 = n 1..3. */
+void h_emit_rule(void) {
+  Builder B; mk_builder(&B, 12, BCAP);
+  uint32_t snap[12];
+  for (int k = 0; k < 12; k++) snap[k] = B.bytecode[k];
+  uint32_t *vec0 = B.bytecode;
+  Reserve r; r.builder = &B; r.index = nd_u32(); r.size = nd_i32();
+  __CPROVER_assume(r.size >= 1 && r.size <= 9 && r.index <= 12 && r.index + (uint32_t) r.size <= 12);   /* a reservation of `reserve` */
+  uint32_t op = nd_u32(); uint32_t body[8]; uint32_t a1 = nd_u32(), a2 = nd_u32(), a3 = nd_u32();
+#if EMIT_N == 8
+  int32_t n = 8; __CPROVER_assume(r.size == 9);            /* the bitmap of RULE_SET */
+  emit_rule(r, (int32_t) op, n, body);
+#elif EMIT_N == 1
+  int32_t n = 1; __CPROVER_assume(r.size == 2); body[0] = a1;
+  emit_1(r, op, a1);
+#elif EMIT_N == 2
+  int32_t n = 2; __CPROVER_assume(r.size == 3); body[0] = a1; body[1] = a2;
+  emit_2(r, op, a1, a2);
+#elif EMIT_N == 3
+  int32_t n = 3; __CPROVER_assume(r.size == 4); body[0] = a1; body[1] = a2; body[2] = a3;
+  emit_3(r, op, a1, a2, a3);
+#endif
+  __CPROVER_assert(B.bytecode == vec0 && CNT(B.bytecode) == 12, "C12 emit_rule: the vector is neither moved nor resized");
+  __CPROVER_assert(B.bytecode[r.index] == op, "C12 emit_rule: opcode word stored at the reserved index");
+  uint32_t j = nd_u32();
+  if (j < (uint32_t) n) __CPROVER_assert(B.bytecode[r.index + 1 + j] == body[j], "C12 emit_rule: argument word j stored at index + 1 + j (every reserved word is filled, in order)");
+  uint32_t f = nd_u32();
+  if (f < 12 && (f < r.index || f >= r.index + (uint32_t) r.size)) __CPROVER_assert(B.bytecode[f] == snap[f], "C12 emit_rule: no word outside the reserved block is written");
+  REACH("emit_rule returns");
+}
+#endif
+
+#ifdef LEAF_emit_bytes
+/* emit_bytes(b, op, len, bytes): [op, len, ceil(len/4) data words]; data bytes = the literal, padding bytes 0; the copy
+ * stays inside the words just pushed; wf_peg clause of RULE_LITERAL */
+#define LMAX 9
+static uint8_t g_bytes[LMAX]; static int32_t g_blen; static int g_copied;
+void *h_memcpy(void *dst, const void *src, size_t n) {
+  uint32_t cnt = veclen(G_B->bytecode);
+  __CPROVER_assert(n == (size_t) g_blen && src == (const void *) g_bytes, "C12 emit_bytes: copies exactly len bytes of the literal");
+  __CPROVER_assert(dst == (void *)(G_B->bytecode + g_n0 + 2), "C12 emit_bytes: data starts two words behind the opcode, in the CURRENT vector");
+  __CPROVER_assert(g_n0 + 2 + (n + 3) / 4 <= cnt, "C12 emit_bytes: no write past the words reserved for the literal");
+  for (int k = 0; k < LMAX; k++) if ((size_t) k < n) ((uint8_t *) dst)[k] = ((const uint8_t *) src)[k];
+  g_copied++;
+  return dst;
+}
+static void bytes_case(int32_t n0c, int32_t capc) {
+  Builder B; mk_builder(&B, n0c, capc);
+  g_blen = nd_i32(); __CPROVER_assume(g_blen >= 0 && g_blen <= LMAX); g_copied = 0;
+  emit_bytes(&B, RULE_LITERAL, g_blen, g_bytes);
+  const uint32_t *bc = B.bytecode; uint32_t n0 = g_n0; uint32_t words = ((uint32_t) g_blen + 3) / 4;
+  g_len = veclen(bc);
+  __CPROVER_assert(g_len == n0 + 2 + words, "C12 emit_bytes: opcode word, length word and ceil(len/4) data words appended");
+  __CPROVER_assert(bc[n0] == RULE_LITERAL && bc[n0 + 1] == (uint32_t) g_blen, "C12 emit_bytes: opcode and length words");
+  __CPROVER_assert(g_copied == 1, "C12 emit_bytes: one copy");
+  uint32_t k = nd_u32();
+  const uint8_t *data = (const uint8_t *)(bc + n0 + 2);
+  if (k < (uint32_t) g_blen) __CPROVER_assert(data[k] == g_bytes[k], "C12 emit_bytes: data byte k = literal byte k (word packing in memory order, as the matcher's memcmp reads it)");
+  if (k >= (uint32_t) g_blen && k < 4 * words) __CPROVER_assert(data[k] == 0, "C12 emit_bytes: padding bytes of the last data word are 0 (no uninitialised byte reaches the image)");
+  __CPROVER_assert(n0 == 0 || bc[g_fidx] == g_fval, "C12 emit_bytes: rules emitted earlier are preserved");
+  uint8_t isstart[BCAP]; for (int q = 0; q < BCAP; q++) isstart[q] = 0; isstart[n0] = 1;
+  __CPROVER_assert(peg_wf_instr(bc, isstart, n0, 0), "C12 wf: wf_peg clause of RULE_LITERAL (length word consistent with the words present)");
+  if (g_blen == 0) REACH("emit_bytes returns (empty literal)");
+  if (g_blen == 5) REACH("emit_bytes returns (5 bytes, 2 data words)");
+  if (g_blen == 8) REACH("emit_bytes returns (8 bytes, no padding)");
+}
+void h_emit_bytes(void) {
+  int c = nd_int();
+  if (c == 0) bytes_case(0, 0); else if (c == 1) bytes_case(N0MAX, N0MAX + 1); else bytes_case(N0MAX, BCAP);
+}
+#endif
+
+#ifdef LEAF_emit_constant
+/* emit_constant(b, c): returns the old constant count; the constant is stored at that index; count + 1; older constants
+ * preserved across the growth of the vector */
+static void const_case(int32_t c0, int32_t cap) {
+  Builder B; mk_builder(&B, 0, 0);
+  Janet kold;
+  if (cap == 0) B.constants = NULL;
+  else {
+    char *raw = malloc(2 * sizeof(int32_t) + sizeof(Janet) * BCAP); __CPROVER_assume(raw != NULL);
+    ((int32_t *) raw)[0] = cap; ((int32_t *) raw)[1] = c0; B.constants = (Janet *)(raw + 2 * sizeof(int32_t));
+  }
+  uint32_t f = nd_u32(); __CPROVER_assume(c0 == 0 || f < (uint32_t) c0);
+  if (c0) kold = B.constants[f];
+  Janet c; c.type = nd_int(); c.as.u64 = nd_u64();
+  uint32_t idx = emit_constant(&B, c);
+  __CPROVER_assert(idx == (uint32_t) c0, "C12 emit_constant: returns the old constant count");
+  __CPROVER_assert(CNT(B.constants) == c0 + 1 && idx < (uint32_t) CNT(B.constants), "C12 emit_constant: one constant added - the returned index is below num_constants");
+  __CPROVER_assert(JEQ(B.constants[idx], c), "C12 emit_constant: the constant is stored at the returned index");
+  __CPROVER_assert(c0 == 0 || JEQ(B.constants[f], kold), "C12 emit_constant: older constants are preserved");
+  REACH("emit_constant returns");
+}
+void h_leaf_emit_constant(void) {
+  int c = nd_int();
+  if (c == 0) const_case(0, 0); else if (c == 1) const_case(2, 3); else const_case(2, 8);
+}
+#endif
+
+#ifdef LEAF_emit_tag
+/* emit_tag(b, t): t must be a keyword; a known tag returns its number, a new one gets nexttag (<= 255, else raise) and is
+ * recorded; result always in 1..255 given the invariant of the tags table (holds what emit_tag put) and nexttag >= 1 */
+static JanetTable T_TAGS; static int g_found; static uint32_t g_stored; static int g_puts; static Janet g_put_key, g_put_val; static int g_gets;
+Janet h_tget(JanetTable *t, Janet key) {
+  __CPROVER_assert(t == &T_TAGS, "C12 emit_tag: looks the keyword up in the builder's tag table");
+  g_gets++;
+  if (g_found) return janet_wrap_number((double) g_stored);
+  return janet_wrap_nil();
+}
+void h_tput(JanetTable *t, Janet key, Janet value) {
+  __CPROVER_assert(t == &T_TAGS, "C12 emit_tag: records the tag in the builder's tag table");
+  g_put_key = key; g_put_val = value; g_puts++;
+}
+void h_leaf_emit_tag(void) {
+  Builder B; mk_builder(&B, 0, 0); B.tags = &T_TAGS;
+  __CPROVER_assume(B.nexttag >= 1);                                   /* compile_peg: nexttag starts at 1 */
+  g_found = nd_int() ? 1 : 0; g_stored = nd_u32(); __CPROVER_assume(g_stored >= 1 && g_stored <= 255);   /* table invariant */
+  g_puts = 0; g_gets = 0;
+  uint32_t next0 = B.nexttag;
+  Janet t; t.type = nd_int(); t.as.u64 = nd_u64();
+  uint32_t tag = emit_tag(&B, t);
+  __CPROVER_assert(t.type == JANET_KEYWORD, "C12 emit_tag: a tag that is not a keyword raises");
+  __CPROVER_assert(tag >= 1 && tag <= 255, "C12 emit_tag: tags fit the one-byte tag stack of the matcher and 0 stays reserved for 'untagged'");
+  if (g_found) {
+    __CPROVER_assert(tag == g_stored && g_puts == 0 && B.nexttag == next0, "C12 emit_tag: a known keyword keeps its tag number");
+    REACH("emit_tag returns (known tag)");
+  } else {
+    __CPROVER_assert(tag == next0 && B.nexttag == next0 + 1, "C12 emit_tag: a new keyword gets the next free number");
+    __CPROVER_assert(g_puts == 1 && JEQ(g_put_key, t) && g_put_val.type == JANET_NUMBER && g_put_val.as.number == (double) tag, "C12 emit_tag: the new tag is recorded under its keyword");
+    REACH("emit_tag returns (new tag)");
+  }
+}
+#endif
+
+#ifdef LEAF_getint
+/* peg_getinteger / peg_getnat: return i only if the pattern value is the number i exactly (and i >= 0 for getnat) */
+void h_getint(void) {
+  Builder B; mk_builder(&B, 0, 0);
+  Janet x; x.type = nd_int(); x.as.number = nd_double();
+#ifdef GETNAT
+  int32_t i = peg_getnat(&B, x);
+  __CPROVER_assert(i >= 0, "C12 peg_getnat: a negative number raises instead of being returned");
+#else
+  int32_t i = peg_getinteger(&B, x);
+#endif
+  __CPROVER_assert(x.type == JANET_NUMBER, "C12 peg_getinteger: a non-number raises");
+  __CPROVER_assert(x.as.number == (double) i, "C12 peg_getinteger: the result is the pattern's number exactly (fractions, NaN, out-of-int32-range values raise)");
+  if (i == 0) REACH("peg_getinteger returns 0");
+  if (i == 2147483647) REACH("peg_getinteger returns INT32_MAX");
+#ifndef GETNAT
+  if (i == (-2147483647 - 1)) REACH("peg_getinteger returns INT32_MIN");
+#endif
+}
+#endif
+
+#if defined(LEAF_arity)
+/* peg_arity / peg_fixarity return only when the argument count is in range */
+void h_arity_real(void) {
+  Builder B; mk_builder(&B, 0, 0);
+  int32_t argc = nd_i32(), mn = nd_i32(), mx = nd_i32();
+  if (nd_int()) {
+    peg_arity(&B, argc, mn, mx);
+    __CPROVER_assert((mn < 0 || argc >= mn) && (mx < 0 || argc <= mx), "C12 peg_arity: returns only for min <= argc <= max (negative bound = unbounded)");
+    REACH("peg_arity returns");
+  } else {
+    peg_fixarity(&B, argc, mn);
+    __CPROVER_assert(argc == mn, "C12 peg_fixarity: returns only for argc == arity");
+    REACH("peg_fixarity returns");
+  }
+}
+#endif
+
+/* ---- string objects for the set / range units ---- */
+#if defined(LEAF_getrange) || defined(SHAPE_range) || defined(SHAPE_set)
+#define SMAX 3
+#define RSPAN 8
+static const uint8_t *mk_string(int32_t *lenp) {
+  JanetStringHead *h = malloc(sizeof(JanetStringHead) + SMAX + 1); __CPROVER_assume(h != NULL);
+  int32_t len = nd_i32(); __CPROVER_assume(len >= 0 && len <= SMAX);
+  h->length = len; *lenp = len;
+  return h->data;
+}
+#endif
+
+#ifdef LEAF_getrange
+void h_getrange(void) {
+  Builder B; mk_builder(&B, 0, 0);
+  int32_t len; const uint8_t *s = mk_string(&len);
+  Janet x; x.type = nd_int(); x.as.pointer = (void *) s;
+  if (nd_int()) {
+    const uint8_t *r = peg_getrange(&B, x);
+    __CPROVER_assert(x.type == JANET_STRING && r == s, "C12 peg_getrange: only strings are accepted");
+    __CPROVER_assert(len == 2, "C12 peg_getrange: the range string has exactly two bytes, else raise (both are read)");
+    __CPROVER_assert(r[0] <= r[1], "C12 peg_getrange: an empty range (hi < lo) raises");
+    REACH("peg_getrange returns");
+  } else {
+    const uint8_t *r = peg_getset(&B, x);
+    __CPROVER_assert(x.type == JANET_STRING && r == s, "C12 peg_getset: only strings are accepted");
+    REACH("peg_getset returns");
+  }
+}
+#endif
+
+#if defined(SHAPE_range) || defined(SHAPE_set)
+/* (range "az" ...) / (set "abc"): [RULE_RANGE, lo | hi << 16] resp. [RULE_SET, 8 bitmap words]: bit c set iff c is a member */
+void h_charset(void) {
+  Builder B; Janet argv[2]; int32_t len[2]; const uint8_t *s[2];
+  int32_t argc = nd_i32(); __CPROVER_assume(argc >= 0 && argc <= 2);
+  mk_builder(&B, nd_int() ? 0 : N0MAX, BCAP);
+  for (int i = 0; i < 2; i++) { s[i] = mk_string(&len[i]); argv[i].type = nd_int(); argv[i].as.pointer = (void *) s[i]; }
+#ifdef SHAPE_range
+  __CPROVER_assume(s[0][1] < s[0][0] || s[0][1] - s[0][0] < RSPAN); __CPROVER_assume(s[1][1] < s[1][0] || s[1][1] - s[1][0] < RSPAN);   /* bound: span of a range */
+#endif
+  SPEC_FN(&B, argc, argv);
+  const uint32_t *bc = B.bytecode; uint32_t n0 = g_n0;
+  uint8_t c = nd_u8();
+#ifdef SHAPE_set
+  post_rule(&B, 9);
+  OKW(argc == 1 && argv[0].type == JANET_STRING, "exactly one string argument, else raise");
+  OKW(W(0) == RULE_SET, "opcode");
+  int member = 0;
+  for (int k = 0; k < SMAX; k++) if (k < len[0] && s[0][k] == c) member = 1;
+  OKW((((W(1 + (c >> 5))) >> (c & 0x1F)) & 1u) == (uint32_t) member, "bitmap bit c is set iff byte c occurs in the set string (the matcher tests word c>>5, bit c&31)");
+  REACH("spec_set returns");
+#else
+  OKW(argc >= 1, "at least one range, else raise");
+  OKW(argv[0].type == JANET_STRING && len[0] == 2 && s[0][0] <= s[0][1], "every range is a two-byte string lo <= hi, else raise");
+  if (argc == 1) {
+    post_rule(&B, 2);
+    OKW(W(0) == RULE_RANGE, "opcode");
+    OKW(W(1) == ((uint32_t) s[0][0] | ((uint32_t) s[0][1] << 16)), "range word = lo | hi << 16");
+    REACH("spec_range returns (one range)");
+  } else {
+    post_rule(&B, 9);
+    OKW(argv[1].type == JANET_STRING && len[1] == 2 && s[1][0] <= s[1][1], "every range is a two-byte string lo <= hi, else raise");
+    OKW(W(0) == RULE_SET, "opcode");
+    int member = (s[0][0] <= c && c <= s[0][1]) || (s[1][0] <= c && c <= s[1][1]);
+    OKW((((W(1 + (c >> 5))) >> (c & 0x1F)) & 1u) == (uint32_t) member, "bitmap bit c is set iff c lies in one of the ranges");
+    REACH("spec_range returns (two ranges compiled as a set)");
+  }
+#endif
+  (void) bc; (void) n0;
+}
+#endif
+
+#ifdef LEAF_make_peg
+/* make_peg(b): one abstract block holding the header, the bytecode words and the constants: both arrays lie inside the
+ * block, aligned, disjoint; lengths copied from the vectors; exactly count elements of each are copied */
+static char *g_mem; static size_t g_total; static int g_copies;
+static const void *g_src[2]; static void *g_dst[2]; static size_t g_cn[2];
+void *h_abstract(const JanetAbstractType *at, size_t size) {
+  __CPROVER_assert(at == &janet_peg_type, "C12 make_peg: allocates a core/peg abstract");
+  g_total = size; g_mem = malloc(size); __CPROVER_assume(g_mem != NULL); return g_mem;
+}
+void h_safe_memcpy(void *d, const void *s, size_t n) {
+  __CPROVER_assert(g_copies < 2, "C12 make_peg: two copies");
+  g_dst[g_copies] = d; g_src[g_copies] = s; g_cn[g_copies] = n; g_copies++;
+  __CPROVER_assert(n == 0 || (__CPROVER_same_object(d, g_mem) && (char *) d >= g_mem + sizeof(JanetPeg) && (char *) d + n <= g_mem + g_total), "C12 make_peg: every copy stays inside the block, behind the header");
+}
+void h_make_peg(void) {
+  Builder B; mk_builder(&B, 0, 0);
+  int32_t nb = nd_i32(), nc = nd_i32(); __CPROVER_assume(nb >= 0 && nc >= 0);
+  /* only the count words of the vectors are read by make_peg itself; the element copies are handed to safe_memcpy */
+  int32_t *hb = malloc(2 * sizeof(int32_t)), *hc = malloc(2 * sizeof(int32_t)); __CPROVER_assume(hb && hc);
+  hb[0] = nb; hb[1] = nb; hc[0] = nc; hc[1] = nc;
+  B.bytecode = nd_int() ? NULL : (uint32_t *)(hb + 2); B.constants = nd_int() ? NULL : (Janet *)(hc + 2);
+  if (!B.bytecode) nb = 0; if (!B.constants) nc = 0;
+  g_copies = 0;
+  JanetPeg *peg = make_peg(&B);
+  __CPROVER_assert((char *) peg == g_mem, "C12 make_peg: the peg is the allocated block");
+  __CPROVER_assert(g_total >= sizeof(JanetPeg) + (size_t) nb * 4 + (size_t) nc * sizeof(Janet), "C12 make_peg: block large enough for header, words and constants");
+  __CPROVER_assert(peg->bytecode_len == (size_t) nb && peg->num_constants == (uint32_t) nc, "C12 make_peg: bytecode_len / num_constants are the vector counts (what wf_peg is stated against)");
+  __CPROVER_assert((char *) peg->bytecode >= g_mem + sizeof(JanetPeg) && (char *)(peg->bytecode) + (size_t) nb * 4 <= (char *) peg->constants, "C12 make_peg: bytecode lies behind the header and ends before the constants");
+  __CPROVER_assert((char *) peg->constants + (size_t) nc * sizeof(Janet) <= g_mem + g_total, "C12 make_peg: constants end inside the block");
+  __CPROVER_assert(((size_t)((char *) peg->bytecode - g_mem)) % sizeof(uint32_t) == 0 && ((size_t)((char *) peg->constants - g_mem)) % sizeof(Janet) == 0, "C12 make_peg: both arrays are aligned for their element type");
+  __CPROVER_assert(g_copies == 2 && g_dst[0] == (void *) peg->bytecode && g_src[0] == (const void *) B.bytecode && g_cn[0] == (size_t) nb * 4, "C12 make_peg: exactly count words are copied from the bytecode vector");
+  __CPROVER_assert(g_dst[1] == (void *) peg->constants && g_src[1] == (const void *) B.constants && g_cn[1] == (size_t) nc * sizeof(Janet), "C12 make_peg: exactly count constants are copied from the constant vector");
+  __CPROVER_assert(peg->has_backref == B.has_backref, "C12 make_peg: has_backref handed on to the matcher");
+  REACH("make_peg returns");
 }
 #endif
